@@ -49,21 +49,20 @@ const (
 
 // c19Anchors holds the role-resolved functions.
 
-// c19Anchors holds the role-resolved functions.  Only the entry points, the
-// four packers (found by the dispatch conditions) and the media type validator
-// are anchors; every other unexported helper is executed in place, so the
+// c19Anchors holds the role-resolved functions.  Only the entry points and the
+// four packers (found by the dispatch conditions) are anchors; every other unexported helper is executed in place, so the
 // rules see Pusher.Push, json.Marshal, NewDescriptorFromBytes, time.Parse …
 // themselves, however the code between them is cut into functions.
 type c19Anchors struct {
 	packManifest, pack      *ssa.Function
 	v10, v11, rc2, artifact *ssa.Function
-	validator               *ssa.Function // func(string) error matching a regexp
 	verKey, k10, k11        string
+	rfcPatterns             map[string]bool // pattern texts proved ≡ RFC 6838 (R6)
 }
 
 func (a *c19Anchors) inline(g *ssa.Function) bool {
 	switch g {
-	case a.validator, a.v10, a.v11, a.rc2, a.artifact:
+	case a.v10, a.v11, a.rc2, a.artifact:
 		return false
 	}
 	return !token.IsExported(g.Name())
@@ -195,35 +194,6 @@ func c19Resolve(c *Ctx) *c19Anchors {
 		}
 	}
 
-	// the validator: the func(string) error that matches a pattern, among the
-	// (transitive) callees of the packers
-	seen := map[*ssa.Function]bool{}
-	var collect func(f *ssa.Function, depth int)
-	collect = func(f *ssa.Function, depth int) {
-		for _, call := range Calls(f, func(string) bool { return true }) {
-			if g := StaticCallee(call); g != nil && inModule(g) && len(g.Blocks) > 0 && !seen[g] {
-				seen[g] = true
-				if depth < sxInlineDepth {
-					collect(g, depth+1)
-				}
-			}
-		}
-	}
-	for _, P := range []*ssa.Function{a.v10, a.v11} {
-		collect(P, 0)
-	}
-	var cands []*ssa.Function
-	for g := range seen {
-		sig := g.Signature
-		if sig.Recv() == nil && sig.Params().Len() == 1 && isStringType(sig.Params().At(0).Type()) && ErrResultIndex(sig) == 0 && sig.Results().Len() == 1 && len(reGlobalsUsedBy(g)) > 0 {
-			cands = append(cands, g)
-		}
-	}
-	if len(cands) != 1 {
-		c.LostAnchor(R, fmt.Sprintf("media type validator (func(string) error matching a regexp) among the helpers of the packers: %d candidates", len(cands)))
-		return nil
-	}
-	a.validator = cands[0]
 	return a
 }
 
@@ -327,12 +297,12 @@ func runC19(c *Ctx) {
 	if a == nil {
 		return
 	}
+	c19R6(c, a) // first: R1 needs to know which patterns are RFC 6838
 	c19R1(c, a)
 	c19R2(c, a)
 	c19R3(c, a)
 	c19R4(c, a)
 	c19R5(c, a)
-	c19R6(c, a)
 }
 
 // ---------- push events ----------
@@ -354,7 +324,7 @@ func c19PushEvents(p *sxPath) []c19Push {
 			continue
 		}
 		e := c19Push{rec: r, desc: r.Args[1], kind: "blob"}
-		if rd, ok := r.Args[2].(sxCall); ok && rd.rec.Name == c19NReader && len(rd.rec.Args) == 1 {
+		if rd, ok := r.Args[2].(sxCall); ok && (rd.rec.Name == c19NReader || rd.rec.Name == "bytes.NewBuffer") && len(rd.rec.Args) == 1 {
 			e.data = rd.rec.Args[0]
 		}
 		if m, ok := e.data.(sxCall); ok && m.rec.Name == c19NMarshal && m.idx == 0 {
@@ -433,7 +403,7 @@ func c19Present(p *sxPath, at *sxCallRec, d sxVal) bool {
 // executed in place (inline depth / recursion): the rules cannot see through it.
 func c19Opaque(p *sxPath, a *c19Anchors) string {
 	for _, r := range p.Calls {
-		if r.Callee != nil && r.Callee != a.validator && r.Name != c19NPush && c19ReachesPush(r.Callee) {
+		if r.Callee != nil && r.Name != c19NPush && c19ReachesPush(r.Callee) {
 			return r.Name
 		}
 	}
@@ -496,9 +466,36 @@ func c19ConfigTerms(opts sxVal, optsT types.Type) (ptr, deref, media sxVal) {
 	return
 }
 
+// c19PatternCalls: the pattern matches of x on the path — calls
+// (*regexp.Regexp).MatchString(<pattern>, x) — with the pattern each one uses
+// (package-level variable, accessor or lazily initialised; nil if unresolved).
+func c19PatternCalls(p *sxPath, x sxVal) (calls []*sxCallRec, srcs []*reSource) {
+	for _, r := range p.Calls {
+		if r.Name != "(*regexp.Regexp).MatchString" || len(r.Args) != 2 || !sxSame(r.Args[1], x) {
+			continue
+		}
+		src, err := reSourceOfReceiver(r.Call.Common().Args[0], 0)
+		if err != nil {
+			src = nil
+		}
+		calls = append(calls, r)
+		srcs = append(srcs, src)
+	}
+	return
+}
+
+func c19PatternKey(src *reSource) string { return fmt.Sprintf("%d:%s", src.Flags, src.Src) }
+
+// c19Validated: among the first n facts, x is known to match a pattern that
+// was proved language-equivalent to RFC 6838 (wherever the match is written:
+// a validator function, a helper, or the packer itself).
 func c19Validated(p *sxPath, n int, a *c19Anchors, x sxVal) bool {
-	for _, v := range p.Calls {
-		if v.Callee == a.validator && v.NFacts <= n && len(v.Args) == 1 && sxSame(v.Args[0], x) && p.ErrNil(n, v) {
+	calls, srcs := c19PatternCalls(p, x)
+	for i, r := range calls {
+		if srcs[i] == nil || !a.rfcPatterns[c19PatternKey(srcs[i])] {
+			continue
+		}
+		if v, known := p.Fact(n, r.Result(0).key()); known && v {
 			return true
 		}
 	}
@@ -612,15 +609,15 @@ func c19R1(c *Ctx, a *c19Anchors) {
 					case lastFlow[si] < pi:
 						agg.ok(key, P, in, "the string is not used by this or any later push of these paths")
 					case c19Validated(p, r.NFacts, a, s.term):
-						agg.ok(key, P, in, "validated by "+FnName(a.validator)+" (nil result) before the push")
-					case p.IsEmptyString(r.NFacts, s.term):
-						agg.ok(key, P, in, "known empty before the push")
+						agg.ok(key, P, in, "known to match the RFC 6838 pattern before the push")
+					case si == 0 && p.IsEmptyString(r.NFacts, s.term):
+						agg.ok(key, P, in, "known empty before the push (an empty artifactType is documented as \"not given\")")
 					case fi.flows:
-						agg.fail(key, P, in, p, fmt.Sprintf("%s reaches what is pushed here (%s) without having passed %s (a media type violating RFC 6838 would be pushed instead of rejected)",
-							s.label, e.kind, FnName(a.validator)))
+						agg.fail(key, P, in, p, fmt.Sprintf("%s reaches what is pushed here (%s) without being known to match the RFC 6838 media type pattern (a violating media type would be pushed instead of rejected)",
+							s.label, e.kind))
 					default:
-						agg.fail(key, P, in, p, fmt.Sprintf("%s is used by a later push of this path (%s) but has not passed %s yet when the %s is pushed: a media type violating RFC 6838 would be rejected only after something was pushed",
-							s.label, pushes[lastFlow[si]].kind, FnName(a.validator), e.kind))
+						agg.fail(key, P, in, p, fmt.Sprintf("%s is used by a later push of this path (%s) but is not yet known to match the RFC 6838 pattern when the %s is pushed: a violating media type would be rejected only after something was pushed",
+							s.label, pushes[lastFlow[si]].kind, e.kind))
 					}
 				}
 				if P == a.v10 {
@@ -1212,90 +1209,72 @@ func c19IsEmptyJSON(d sxVal) bool {
 const c19RFC6838 = `\A(?:[[:alpha:]]|[[:digit:]])(?:[[:alpha:]]|[[:digit:]]|!|#|\$|&|\-|\^|_|\.|\+){0,126}` +
 	`/(?:[[:alpha:]]|[[:digit:]])(?:[[:alpha:]]|[[:digit:]]|!|#|\$|&|\-|\^|_|\.|\+){0,126}\z`
 
+// c19R6 finds the pattern variables the packers match artifactType /
+// config media type against (on the inlined paths) and decides their language.
 func c19R6(c *Ctx, a *c19Anchors) {
 	const R6 = "C19.R6.media-type-language"
-	c.Expect(R6, 2)
-	V := a.validator
-	vn := FnName(V)
+	c.Expect(R6, 1)
+	a.rfcPatterns = map[string]bool{}
 	if err := reSelfTest(); err != nil {
-		c.Undecided(R6, "engine-self-test", V.Pos(), err.Error())
+		c.Undecided(R6, "engine-self-test", a.v11.Pos(), err.Error())
 		return
 	}
-	gs := reGlobalsUsedBy(V)
-	if len(gs) != 1 {
-		c.LostAnchor(R6, vn+": the pattern variable it matches against")
-		return
-	}
-	// the validator accepts exactly the strings the pattern matches
-	ms := Calls(V, func(n string) bool { return n == "(*regexp.Regexp).MatchString" })
-	okUse := len(ms) == 1
-	if okUse {
-		okUse = SameValue(ms[0].Common().Args[1], V.Params[0])
-		te, _ := BoolTests(V, Aliases(ms[0].Value()))
-		if len(te) == 0 {
-			okUse = false
-		}
-		for _, at := range RetAtoms(V, 0) {
-			if ErrNilStatus(at.Val, 0) != NonNil && !AtomMustPass(at, newCut().Edges(te...)) {
-				okUse = false
-			}
-		}
-		for _, r := range Returns(V) {
-			_ = r
-		}
-		// and on the match edge nil is returned: no non-nil return reachable from the true edges
-		for _, e := range te {
-			if bad := c19NonNilReturnFrom(V, e); bad {
-				okUse = false
-			}
-		}
-	}
-	c.Check(R6, vn+"|accepts-iff-match", V.Pos(), okUse, ifelse(okUse, "the validator returns nil exactly on the true edge of pattern.MatchString(mediaType)",
-		"the validator does not return nil exactly when the pattern matches its parameter"))
-	src, err := reGlobalSource(gs[0], 0)
-	if err != nil {
-		c.Undecided(R6, vn+"|pattern≡RFC6838", V.Pos(), "cannot obtain the pattern text: "+err.Error())
-		return
-	}
-	l, err := reParse(src.Src, src.Flags)
-	if err != nil {
-		c.Violation(R6, vn+"|pattern≡RFC6838", src.Pos, "the pattern does not compile: "+err.Error())
-		return
-	}
-	eq, w, inRepo, err := reEquivalent(l, reMust(c19RFC6838))
-	switch {
-	case err != nil:
-		c.Undecided(R6, vn+"|pattern≡RFC6838", src.Pos, err.Error())
-	case eq:
-		c.OK(R6, vn+"|pattern≡RFC6838", src.Pos, "L("+src.Src+") = RFC 6838 restricted-name \"/\" restricted-name (automata equivalence)")
-	case inRepo:
-		c.Violation(R6, vn+"|pattern≡RFC6838", src.Pos, fmt.Sprintf("the media type pattern accepts %q, which RFC 6838 §4.2 does not allow", w))
-	default:
-		c.Violation(R6, vn+"|pattern≡RFC6838", src.Pos, fmt.Sprintf("the media type pattern rejects %q, which RFC 6838 §4.2 allows", w))
-	}
-}
-
-// c19NonNilReturnFrom: a Return with a possibly non-nil error is reachable
-// from edge e.
-func c19NonNilReturnFrom(fn *ssa.Function, e Edge) bool {
-	idx := ErrResultIndex(fn.Signature)
-	for _, at := range RetAtoms(fn, idx) {
-		if ErrNilStatus(at.Val, 0) == IsNil {
+	found := map[string]bool{}
+	var order []*reSource
+	for _, P := range []*ssa.Function{a.v10, a.v11} {
+		opts, optsT := c19Opts(P)
+		art := c19StringParam(P)
+		if opts == nil || art == nil {
 			continue
 		}
-		// is this atom's return reachable from e.To without leaving through… (plain reachability)
-		if reach(e.To, 0, at.Ret, nil) {
-			if len(at.Edges) == 0 {
-				return true
-			}
-			// the phi edge must itself be reachable from e
-			inner := at.Edges[len(at.Edges)-1]
-			if inner.From == e.To || reach(e.To, 0, inner.From.Instrs[len(inner.From.Instrs)-1], nil) || inner == e {
-				return true
+		_, _, cfgMedia := c19ConfigTerms(opts, optsT)
+		res := a.paths(P)
+		for _, p := range res.Paths {
+			for _, x := range []sxVal{art, cfgMedia} {
+				if x == nil {
+					continue
+				}
+				calls, srcs := c19PatternCalls(p, x)
+				for i, src := range srcs {
+					if src == nil {
+						c.Undecided(R6, FnName(P)+"|pattern", calls[i].Call.Pos(), "the media type is matched against a pattern whose text cannot be resolved: "+sxDescribe(calls[i].Args[0]))
+						return
+					}
+					if k := c19PatternKey(src); !found[k] {
+						found[k] = true
+						order = append(order, src)
+					}
+				}
 			}
 		}
 	}
-	return false
+	if len(order) == 0 {
+		c.LostAnchor(R6, "no (*regexp.Regexp).MatchString of artifactType / opts.ConfigDescriptor.MediaType on any path of the 1.0/1.1 packers")
+		return
+	}
+	for i, src := range order {
+		key := "media-type-pattern|pattern≡RFC6838"
+		if i > 0 {
+			key = fmt.Sprintf("media-type-pattern#%d|pattern≡RFC6838", i+1)
+		}
+		l, err := reParse(src.Src, src.Flags)
+		if err != nil {
+			c.Violation(R6, key, src.Pos, "the pattern does not compile: "+err.Error())
+			continue
+		}
+		eq, w, inRepo, err := reEquivalent(l, reMust(c19RFC6838))
+		switch {
+		case err != nil:
+			c.Undecided(R6, key, src.Pos, err.Error())
+		case eq:
+			a.rfcPatterns[c19PatternKey(src)] = true
+			c.OK(R6, key, src.Pos, "L("+src.Src+") = RFC 6838 restricted-name \"/\" restricted-name (automata equivalence)")
+		case inRepo:
+			c.Violation(R6, key, src.Pos, fmt.Sprintf("the media type pattern accepts %q, which RFC 6838 §4.2 does not allow", w))
+		default:
+			c.Violation(R6, key, src.Pos, fmt.Sprintf("the media type pattern rejects %q, which RFC 6838 §4.2 allows", w))
+		}
+	}
 }
 
 var c19Mutants = []Mutant{
@@ -1360,7 +1339,7 @@ var c19Mutants = []Mutant{
 	{Name: "media-type-allows-star", File: "pack.go",
 		Old: "/[A-Za-z0-9][A-Za-z0-9!#$&^_.+-]{0,126}$", New: "/[A-Za-z0-9][A-Za-z0-9!#$&^_.+*-]{0,126}$", Expect: "C19.R6"},
 	{Name: "validator-accepts-empty", File: "pack.go",
-		Old: "\tif !mediaTypeRegexp.MatchString(mediaType) {", New: "\tif !mediaTypeRegexp.MatchString(mediaType) && mediaType != \"\" {", Expect: "C19.R6"},
+		Old: "\tif !mediaTypeRegexp.MatchString(mediaType) {", New: "\tif !mediaTypeRegexp.MatchString(mediaType) && mediaType != \"\" {", Expect: "C19.R1"},
 	{Name: "validator-inverted", File: "pack.go",
-		Old: "\tif !mediaTypeRegexp.MatchString(mediaType) {", New: "\tif mediaTypeRegexp.MatchString(mediaType) && len(mediaType) > 255 {", Expect: "C19.R6"},
+		Old: "\tif !mediaTypeRegexp.MatchString(mediaType) {", New: "\tif mediaTypeRegexp.MatchString(mediaType) && len(mediaType) > 255 {", Expect: "C19.R1"},
 }
